@@ -42,13 +42,25 @@ type rlocker RWMutex
 func (r *rlocker) Lock()   { (*RWMutex)(r).RLock() }
 func (r *rlocker) Unlock() { (*RWMutex)(r).RUnlock() }
 
-// Once stands in for sync.Once.
-type Once struct{ _ [1]byte }
+// Once stands in for sync.Once. Completion is remembered in the value itself,
+// so a package-level Once stays done across simulations of one process, as
+// the real one does.
+type Once struct {
+	done bool
+	_    [1]byte
+}
 
 // Do calls f if and only if Do is being called for the first time.
 func (o *Once) Do(f func()) {
+	if o.done {
+		simrt.Atomic(unsafe.Pointer(o))
+		return
+	}
 	if simrt.OnceEnter(unsafe.Pointer(o)) {
-		defer simrt.OnceDone(unsafe.Pointer(o))
+		defer func() {
+			o.done = true
+			simrt.OnceDone(unsafe.Pointer(o))
+		}()
 		f()
 	}
 }
@@ -76,3 +88,48 @@ func NewCond(l Locker) *Cond { return &Cond{L: l} }
 func (c *Cond) Wait()        { simrt.Unsupported("sync.Cond.Wait") }
 func (c *Cond) Signal()      { simrt.Unsupported("sync.Cond.Signal") }
 func (c *Cond) Broadcast()   { simrt.Unsupported("sync.Cond.Broadcast") }
+
+// Pool stands in for sync.Pool: a LIFO of returned objects (the real pool may
+// also drop objects at any time; reuse is the interesting behaviour).
+type Pool struct {
+	New   func() any
+	items []any
+	_     [1]byte
+}
+
+func (p *Pool) Get() any {
+	simrt.Atomic(unsafe.Pointer(p))
+	if n := len(p.items); n > 0 {
+		x := p.items[n-1]
+		p.items = p.items[:n-1]
+		return x
+	}
+	if p.New != nil {
+		return p.New()
+	}
+	return nil
+}
+
+func (p *Pool) Put(x any) {
+	simrt.Atomic(unsafe.Pointer(p))
+	p.items = append(p.items, x)
+}
+
+// OnceFunc, OnceValue and OnceValues mirror the sync helpers.
+func OnceFunc(f func()) func() {
+	var o Once
+	return func() { o.Do(f) }
+}
+
+func OnceValue[T any](f func() T) func() T {
+	var o Once
+	var v T
+	return func() T { o.Do(func() { v = f() }); return v }
+}
+
+func OnceValues[T1, T2 any](f func() (T1, T2)) func() (T1, T2) {
+	var o Once
+	var a T1
+	var b T2
+	return func() (T1, T2) { o.Do(func() { a, b = f() }); return a, b }
+}
